@@ -1,3 +1,7 @@
+#[cfg(trusttunnel_verif)]
+use crate::verif::socket2;
+#[cfg(trusttunnel_verif)]
+use crate::verif::tokio_tcp_only as tokio;
 use crate::direct_forwarder::DirectForwarder;
 use crate::forwarder::Forwarder;
 use crate::http1_codec::Http1Codec;
@@ -291,6 +295,12 @@ impl Core {
         let settings = self.context.settings.clone();
         if settings.listen_protocols.quic.is_none() {
             return Ok(());
+        }
+
+        // QUIC is welded to real sockets and clocks and is not simulated
+        #[cfg(trusttunnel_verif)]
+        if settings.listen_protocols.quic.is_some() {
+            return std::future::pending().await;
         }
 
         let socket = UdpSocket::bind(settings.listen_address).await?;
@@ -720,5 +730,47 @@ impl Default for Context {
             next_client_id: Default::default(),
             next_tunnel_id: Default::default(),
         }
+    }
+}
+
+/// Entry points for the deterministic-simulation harness (see `crate::verif`)
+#[cfg(trusttunnel_verif)]
+impl Core {
+    /// Serve one client session of the tunnel channel over `io`, exactly as
+    /// [`Core::on_new_tls_connection`] does once the TLS handshake is complete
+    pub async fn verif_serve_session(
+        &self,
+        http2: bool,
+        io: crate::verif::os::TcpStream,
+        sni: String,
+        sni_auth_creds: Option<String>,
+    ) {
+        let context = self.context.clone();
+        let protocol = if http2 {
+            tls_demultiplexer::Protocol::Http2
+        } else {
+            tls_demultiplexer::Protocol::Http1
+        };
+        let client_id = log_utils::IdChain::from(log_utils::IdItem::new(
+            log_utils::CLIENT_ID_FMT,
+            context.next_client_id.fetch_add(1, Ordering::Relaxed),
+        ));
+        let tunnel_id = client_id.extended(log_utils::IdItem::new(
+            log_utils::TUNNEL_ID_FMT,
+            context.next_tunnel_id.fetch_add(1, Ordering::Relaxed),
+        ));
+        let codec = match Self::make_tcp_http_codec(
+            protocol,
+            context.settings.clone(),
+            io,
+            tunnel_id.clone(),
+        ) {
+            Ok(x) => x,
+            Err(e) => {
+                log_id!(debug, client_id, "Failed to create HTTP codec: {}", e);
+                return;
+            }
+        };
+        Self::on_tunnel_request(context, protocol, codec, sni, sni_auth_creds, tunnel_id).await
     }
 }
